@@ -29,6 +29,11 @@ def run(ctx):
         progs = progs[:len(NULLABLE)] + ctx.rng.sample(progs[len(NULLABLE):], 250)
     texts = list(all_texts("a\n", 3 if quick else 4))
     extra = [{"src": "find all " + p, "texts": texts} for p in progs]
+    # a nullable loop INSIDE another loop, after something was consumed in the outer iteration: each loop's zero-width guard is its own
+    for src in ("at least 0 (at least 0 (maybe 'a'))", "at least 0 ('a' at least 0 (maybe 'b'))", "at least 0 ('a' at least 0 (line end))", "maybe ('a' at least 0 (maybe 'b'))",
+                "'a' maybe (at least 0 (at least 0 'b' fewest))", "at least 1 ('a' at least 0 (line end))", "at least 0 ('a' at least 0 (at least 0 (maybe 'b')))",
+                "at least 0 (maybe 'a') 'b'", "at least 0 (at least 0 'a') file end", "at least 0 (maybe 'a') fewest 'b'", "at least 0 ('a' or at least 0 (maybe 'b') 'c')"):
+        extra.append({"src": "find all " + src, "texts": ["a", "ab", "aa", "aab", "b", "", "abab", "a\n", "ba", "ac"]})
     # loops over nullable bodies at every CALL DEPTH and with every kind of loop (named, bounded, fewest): the zero-width guard belongs to the loop
     # instance, which is identified by loop id and call depth - inside inline subroutines, stored patterns, nested calls
     ftexts = ["", "a", "ab", "abba", "aab", "b", "ac", "a\n"]
